@@ -278,6 +278,7 @@ func runC06(c *Ctx) {
 	checkReaderIndexSources(c)
 	checkBlockingQueryLoop(c)
 	checkServiceExistsArgument(c)
+	checkReaderTableCoverage(c)
 }
 
 // ---------------------------------------------------------------------------
